@@ -144,6 +144,7 @@ struct Keys {
     sec: SignedSecretKey,
     pubk: SignedPublicKey,
     other: SignedPublicKey,
+    other_sec: Option<SignedSecretKey>,
 }
 
 fn mk_sig_cfg(k: &SignedSecretKey, typ: SignatureType, seed: u64) -> pgp::errors::Result<SignatureConfig> {
@@ -189,10 +190,14 @@ fn run_cell(kind: &str, p: &str, ks: &Keys, seed: u64) -> Result<Vec<(String, &'
             let sig2 = if is_sig_field {
                 match perturb_sig(&sig, p) { Some(Some(s)) => s, Some(None) => { out.push(("reassemble/parse".into(), "reject")); return Ok(out); } None => return Err("construct: perturbation".into()) }
             } else { sig.clone() };
-            out.push(("Signature::verify".into(), cls(sig2.verify(&vkey_primary, &data[..]))));
-            out.push(("DetachedSignature::verify".into(), cls(DetachedSignature::new(sig2.clone()).verify(&vkey_primary, &data))));
+            if !p.starts_with("ops_") {
+                out.push(("Signature::verify".into(), cls(sig2.verify(&vkey_primary, &data[..]))));
+                out.push(("DetachedSignature::verify".into(), cls(DetachedSignature::new(sig2.clone()).verify(&vkey_primary, &data))));
+            }
             // inline: message built by the library, signature packet (and content) replaced
-            let mut b = MessageBuilder::from_bytes("", DATA.to_vec());
+            // for the one-pass type downgrade the signer signed CRLF text in BINARY mode
+            let signed_inline: Vec<u8> = if p == "ops_type" && kind == "binary" { crate::forge::canon_text(DATA) } else { DATA.to_vec() };
+            let mut b = MessageBuilder::from_bytes("", signed_inline.clone());
             if kind == "text" { b.sign_text(); }
             b.sign(&sec.primary_key, Password::empty(), sec.primary_key.hash_alg());
             let bytes = b.to_vec(rng(seed)).map_err(e)?;
@@ -213,6 +218,19 @@ fn run_cell(kind: &str, p: &str, ks: &Keys, seed: u64) -> Result<Vec<(String, &'
                 if matches!(p, "content" | "truncate" | "extend" | "content_eol") {
                     let lb = literal_body(b"", &data);
                     ps[1].body = lb;
+                }
+                if p.starts_with("ops_") && ps[0].tag == 4 {
+                    // one-pass header: version, type, hash, pk algorithm, ...
+                    match p {
+                        "ops_type" => ps[0].body[1] ^= 1,
+                        "ops_hashalg" => ps[0].body[2] = if ps[0].body[2] == 8 { 10 } else { 8 },
+                        _ => ps[0].body[3] = if ps[0].body[3] == 1 { 22 } else { 1 },
+                    }
+                    if p == "ops_type" && kind == "binary" {
+                        // the attack: a text-mode header lets LF-only content hash like the signed CRLF content
+                        let lb = literal_body(b"", &signed_inline.iter().copied().filter(|&b| b != b'\r').collect::<Vec<u8>>());
+                        ps[1].body = lb;
+                    }
                 }
                 let mut msg = Vec::new();
                 for q in &ps { msg.extend(frame(true, q.tag, &[Chunk::Fixed(q.body.len())], &q.body, q.body.len(), false)); }
@@ -236,7 +254,7 @@ fn run_cell(kind: &str, p: &str, ks: &Keys, seed: u64) -> Result<Vec<(String, &'
                     "content_eol" => doc.replace("first line\n", "first line\r\n"),
                     _ => doc.clone(),
                 };
-                if !is_sig_field {
+                if !is_sig_field && !p.starts_with("ops_") {
                     let r = CleartextSignedMessage::from_string(&doc2).and_then(|(m, _)| m.verify(&vkey_primary).map(|_| ()));
                     out.push(("CleartextSignedMessage::verify".into(), cls(r)));
                 }
@@ -263,6 +281,28 @@ fn run_cell(kind: &str, p: &str, ks: &Keys, seed: u64) -> Result<Vec<(String, &'
             .map_err(e)?;
             if matches!(p, "truncate" | "extend" | "content_eol") {
                 return Err("construct: not applicable".into());
+            }
+            if p.starts_with("backsig_") {
+                // a certificate whose SIGNING subkey is bound without (or with a foreign) back signature
+                let ssub = sec.secret_subkeys[0].key.clone();
+                let mut kf = pgp::packet::KeyFlags::default();
+                kf.set_sign(true);
+                let embedded = if p == "backsig_foreign" {
+                    // made by another key's signing subkey over this primary
+                    None.or_else(|| ks.other_sec.as_ref().and_then(|o| o.secret_subkeys[0].key.sign_primary_key_binding(rng(seed), &pubk.primary_key, &Password::empty()).ok()))
+                } else { None };
+                if p == "backsig_foreign" && embedded.is_none() {
+                    return Err("construct: no foreign signing subkey".into());
+                }
+                let binding = ssub.sign(rng(seed), &sec.primary_key, &pubk.primary_key, &Password::empty(), kf, embedded).map_err(e)?;
+                let cert = SignedSecretKey::new(sec.primary_key.clone(), sec.details.clone(), vec![], vec![pgp::composed::SignedSecretSubKey::new(ssub, vec![binding])]);
+                let pb = cert.to_public_key().to_bytes().map_err(e)?;
+                let r = <SignedPublicKey as pgp::composed::Deserializable>::from_bytes(&pb[..]).and_then(|k| k.verify_bindings());
+                out.push(("SignedPublicKey::verify_bindings".into(), cls(r)));
+                let sb = cert.to_bytes().map_err(e)?;
+                let r = <SignedSecretKey as pgp::composed::Deserializable>::from_bytes(&sb[..]).and_then(|k| k.verify_bindings());
+                out.push(("SignedSecretKey::verify_bindings".into(), cls(r)));
+                return Ok(out);
             }
             let sig2 = if is_sig_field {
                 match perturb_sig(&sig, p) { Some(Some(s)) => s, Some(None) => { out.push(("reassemble/parse".into(), "reject")); return Ok(out); } None => return Err("construct: perturbation".into()) }
@@ -318,7 +358,7 @@ pub fn run(cases_path: &str, out_path: &str, tier: &str, seed: u64) {
     let mk = |i: u64, v6: bool, a: Alg| {
         let sec = if matches!(a, Alg::Ed25519 | Alg::Ed25519Legacy) { gen_with_signing_subkey(seed ^ (0xC02 + i), v6) } else { gen_key(seed ^ (0xC02 + i), v6, &a, Some(&EncAlg::EcdhP256), "c02").expect("keygen") };
         let other = if matches!(a, Alg::Ed25519 | Alg::Ed25519Legacy) { gen_with_signing_subkey(seed ^ (0xD02 + i), v6) } else { gen_key(seed ^ (0xD02 + i), v6, &a, Some(&EncAlg::EcdhP256), "c02 other").expect("keygen") };
-        Keys { pubk: sec.to_public_key(), other: other.to_public_key(), sec }
+        Keys { pubk: sec.to_public_key(), other: other.to_public_key(), other_sec: Some(other), sec }
     };
     let mut sets: Vec<(&str, bool, Keys)> = vec![("ed25519legacy", false, mk(0, false, Alg::Ed25519Legacy)), ("ed25519", true, mk(1, true, Alg::Ed25519)), ("ecdsa-p256", false, mk(2, false, Alg::EcdsaP256)), ("rsa2048", false, mk(3, false, Alg::Rsa2048))];
     if thorough {
@@ -333,7 +373,7 @@ pub fn run(cases_path: &str, out_path: &str, tier: &str, seed: u64) {
         let expect = c["expect"].as_str().unwrap();
         for (label, v6, ks) in sets.iter().filter(|s| s.1 == ver6) {
             let _ = v6;
-            if kind == "primary_key_binding" && !label.starts_with("ed25519") {
+            if (kind == "primary_key_binding" || p.starts_with("backsig_")) && !label.starts_with("ed25519") {
                 continue; // needs a signing subkey
             }
             nontrivial.fetch_add(1, std::sync::atomic::Ordering::Relaxed);
